@@ -21,7 +21,7 @@ func init() { register(c15{}) }
 
 func (c15) ID() string { return "C15" }
 func (c15) Cases(t fw.Tier) int {
-	return tierN(t, 12000, 400000)
+	return tierN(t, 60000, 1500000)
 }
 func (c15) Rule() string {
 	return "each case generates a schema with defaults of every JSON type at depth 0-3 of properties (with / without required at each level, defaults on object and non-object subschemas, object defaults that themselves lack nested defaults, " +
